@@ -123,11 +123,27 @@ def run(rep, tier):
                     % (T(strip(exp)) if exp else None, T(ev["args"][1]), bool(held), waited))
     sb = S.one(r"scheduler_base::suspend$")[0]
     st = [(b, i, ev) for b, i, ev in sb.all_events() if ev.get("k") == "call" and callee_short(ev) == "store" and "states_" in P(ev.get("recv"))]
-    wt = [(b, i, ev) for b, i, ev in sb.all_events() if ev.get("k") == "call" and callee_short(ev) == "wait"]
+    wt = [(b, i, ev) for b, i, ev in sb.all_events() if ev.get("k") == "call" and callee_short(ev) in ("wait", "wait_for", "wait_until") and "cond" in P(ev.get("recv")).lower()]
     cs = [(b, i, ev) for b, i, ev in sb.all_events() if ev.get("k") == "call" and callee_short(ev).startswith("compare_exchange")]
-    if len(st) != 1 or len(wt) != 1 or len(cs) != 1:
+    timed = [x for x in wt if callee_short(x[2]) != "wait"]
+    if len(st) == 1 and len(cs) == 1 and timed:
+        # a timed park ends by itself: the return to 'running' is then only legitimate behind a test that the wait did
+        # not time out (the worker must not resume without a resume request)
+        ffs = FactFlow(sb)
+        fbc = ffs.before.get((cs[0][0], cs[0][1])) or frozenset()
+        tested = any(("timeout" in a) for a, t in fbc)
+        if not tested:
+            rep.bad("C19.R2", sb, loc_of(timed[0][2]), "self-resume-on-timeout", "scheduler_base::suspend parks the worker with %s and then moves the PU from 'sleeping' to 'running' without testing "
+                    "whether the wait timed out: a suspended worker wakes up by itself and runs queued tasks although nobody resumed it (task bodies execute while the runtime / the PU is suspended)"
+                    % callee_short(timed[0][2]))
+            wt = []
+    if not wt and timed:
+        pass
+    elif len(st) != 1 or len(wt) != 1 or len(cs) != 1:
         raise AnalysisBroken("scheduler_base::suspend: expected store, wait, compare_exchange (found %d/%d/%d)" % (len(st), len(wt), len(cs)))
     exp = local_init(sb, P(cs[0][2]["args"][0]))
+    if not wt and timed:
+        wt = timed
     good = T(st[0][2]["args"][0]).endswith("::sleeping") and precedes_on_all_paths(sb, lambda e: e is st[0][2], (wt[0][0], wt[0][1])) \
         and precedes_on_all_paths(sb, lambda e: e is wt[0][2], (cs[0][0], cs[0][1])) and exp is not None \
         and T(strip(exp)).endswith("::sleeping") and T(cs[0][2]["args"][1]).endswith("::running")
